@@ -626,6 +626,19 @@ fn f5_script(k: u128, wk: u128, v: u128) -> Vec<u128> {
     x
 }
 
+/// the witness of `C17_progress_refuted_clear_if_stale` as a race case: same prefix (barriered), then
+/// A's release and W's second write request without a barrier in between, so that B takes the cache
+/// write lock while the cached copy is still valid and the write request overtakes B's read request
+fn f5_stale_script(k: u128, wk: u128, v: u128) -> Vec<u128> {
+    let mut x = vec![1, 5, 0, 4, k, wk, k, k, 14];
+    for (op, c, a) in [(0, 0, 0), (1, 1, 0), (0, 2, 0), (0, 3, 0), (2, 0, 0), (3, 1, v)] {
+        x.extend([op, c, a]);
+        x.extend([5, 0, 0]);
+    }
+    x.extend([2, 2, 0, 1, 1, 0]);
+    x
+}
+
 pub fn gen(r: &mut Rng, i: usize) -> Vec<Vec<u128>> {
     if i % 64 == 63 {
         // multi-thread F5 race: the op list only counts the iterations
@@ -639,7 +652,11 @@ pub fn gen(r: &mut Rng, i: usize) -> Vec<Vec<u128>> {
     if i % 16 == 15 {
         let k = r.below(2) as u128;
         let wk = r.below(2) as u128;
-        return vec![f5_script(k, wk, 100 + r.below(50) as u128)];
+        let v = 100 + r.below(50) as u128;
+        if r.chance(1, 3) {
+            return vec![f5_stale_script(k, wk, v)];
+        }
+        return vec![f5_script(k, wk, v)];
     }
     let race = i % 4 == 3;
     let ncli = r.range(2, 4) as usize;
